@@ -358,23 +358,26 @@ structure Limits where
   /-- `tsdb.MaxTSMFileSize`, in abstract size units; `none` = never reached -/
   maxSize : Option Nat
 
+/-- index entries of key `k` in the current file after one more block of `k` -/
+def nextKeyCount (cur : List (Key × OBlk V)) (k : Key) (nkey : Nat) : Nat :=
+  match cur with
+  | (k', _) :: _ => if k' = k then nkey + 1 else 1
+  | [] => 1
+
 /-- one call of `Compactor.write`: consume the sequence until it is exhausted or the file
     is full.  `cur` = blocks already in this file (reversed), `nkey` = index entries of the
-    current key in this file, `sz` = abstract size so far.  Returns (file, remaining). -/
+    current key in this file, `sz` = abstract size so far.  Returns (file, remaining, rollToNext). -/
 def writeOne (lim : Limits) (bsz : OBlk V → Nat) :
     List (Key × OBlk V) → List (Key × OBlk V) → Nat → Nat → List (Key × OBlk V) × List (Key × OBlk V) × Bool
   | [], cur, _, _ => (cur.reverse, [], false)
   | (k, b) :: rest, cur, nkey, sz =>
-    let nkey' := (match cur with
-      | (k', _) :: _ => if k' = k then nkey + 1 else 1
-      | [] => 1)
-    let sz' := sz + bsz b
-    let cur' := (k, b) :: cur
     -- ErrMaxBlocksExceeded: the block is written, then the file is closed
-    if nkey' ≥ lim.maxBlocks then (cur'.reverse, rest, true)
+    if nextKeyCount cur k nkey ≥ lim.maxBlocks then (((k, b) :: cur).reverse, rest, true)
     else match lim.maxSize with
-      | some mx => if sz' > mx then (cur'.reverse, rest, true) else writeOne lim bsz rest cur' nkey' sz'
-      | none => writeOne lim bsz rest cur' nkey' sz'
+      | some mx =>
+        if sz + bsz b > mx then (((k, b) :: cur).reverse, rest, true)
+        else writeOne lim bsz rest ((k, b) :: cur) (nextKeyCount cur k nkey) (sz + bsz b)
+      | none => writeOne lim bsz rest ((k, b) :: cur) (nextKeyCount cur k nkey) (sz + bsz b)
 
 /-- `writeNewFiles`: files in order; an empty last file (`ErrNoValues`) is dropped. -/
 def splitFiles (lim : Limits) (bsz : OBlk V → Nat) : Nat → List (Key × OBlk V) → List (List (Key × OBlk V))
